@@ -242,17 +242,19 @@ Definition print_variant (o : options) (v : variant) (prefix : N) : str * bool :
   | VAlias t => (v_name v ++ s_sp ++ print_tref t, false)
   end.
 
-(** the union loop of printWithNewLineOption; [first] is i == 0, [force] the running forceNewline *)
-Fixpoint print_variants (o : options) (sep : str) (first : bool) (force : bool) (vs : list variant) : str * bool :=
+(** the union loop of printWithNewLineOption; [first] is i == 0, [force] the running forceNewline, [single] is
+    len(Variants) == 1 (since commit 3b6a30bc, the repair of finding F8, the separator -- hence the bar -- is also
+    written before the only variant of a union; the code before the repair is [single] = false) *)
+Fixpoint print_variants (o : options) (sep : str) (single : bool) (first : bool) (force : bool) (vs : list variant) : str * bool :=
   match vs with
   | [] => ([], force)
   | v :: r =>
       let has := negb (o_ignore o) && nonempty (v_comment v) in
       let cm := if has then s_nl_tab ++ join s_nl_tab (comment_lines (v_comment v)) else [] in
       let force1 := force || has in
-      let bar := if negb first || force1 then sep else [] in
+      let bar := if negb first || force1 || single then sep else [] in
       let '(vt, vf) := print_variant o v (len sep) in
-      let '(rt, rf) := print_variants o sep false (force1 || vf) r in
+      let '(rt, rf) := print_variants o sep single false (force1 || vf) r in
       (cm ++ bar ++ vt ++ rt, rf)
   end.
 
@@ -275,7 +277,7 @@ Definition print_def_nl (o : options) (d : typedef) (force : bool) (isret : bool
       let has := negb (o_ignore o) && existsb variant_has_comment vs in
       let force1 := force || has in
       let sep := (if force1 then s_nl_tab else s_sp) ++ s_bar_sp in
-      let '(t, f) := print_variants o sep true force1 vs in
+      let '(t, f) := print_variants o sep (Nat.eqb (length vs) 1) true force1 vs in
       (head ++ t, f)
   | DStruct fs =>
       let head := if negb isret then s_sp_eq_sp else [] in
